@@ -361,6 +361,25 @@ def run_shard(spec):
         # trailing garbage after STOP is not part of the value
         L.check(data + b"\x00garbage", "trailing")
 
+    # ---- large payloads really present in the input: still only supported types come back, hashable where they must be
+    if spec["shard"] % 4 == 0:
+        for size in (65535, 65536, 65537, 70000, 300000):
+            big = [b"b" * size, "s" * size, {b"k" * size: 1}, {"t" * size}, (b"x" * size, "y" * size), frozenset([b"f" * size])]
+            for v in big:
+                data = codec.encode(v)
+                L.check(data, "large_valid")
+                res.count("large_valid_dumps")
+                for k in (len(data) - 1, len(data) - 2, size // 2):
+                    L.check(data[:k], "large_prefix", must_fail=True)
+            for legacy, cfg in ((codec.Py2Str(b"p" * size), (False, False)), ("n" * size, (False, True))):
+                data = codec.encode(legacy)
+                try:
+                    v = L.execnet.loads(data, py2str_as_py3str=cfg[0], py3str_as_py2str=cfg[1])
+                    if type(v) is not bytes:
+                        res.violation("loads-returned-unsupported-type", f"{type(v).__name__} for a {size}-byte legacy/str payload loaded as bytes")
+                except BaseException as e:
+                    res.violation(f"untyped-exception:{type(e).__name__}:large-legacy", str(e)[:200])
+
     # ---- grammar-driven abuse and soups
     for s in abuse_streams(rng, g):
         if res.enough(3):
